@@ -30,6 +30,10 @@ func main() {
 		os.Exit(2)
 	}
 	id := os.Args[1]
+	if id == "DUMP" {
+		runDumpMain(os.Args[2:])
+		return
+	}
 	fs := flag.NewFlagSet(id, flag.ExitOnError)
 	seed := fs.String("seed", "1", "PRNG seed")
 	tier := fs.String("tier", "quick", "quick|thorough")
